@@ -257,8 +257,20 @@ def check(ctx, runner, case: Case, world: str, kind: str, mv=None):
             return ("wrong-number-of-sources",
                     "`mypy %s` checked %d source files, the listing has %d (%s)"
                     % (" ".join(a), got, want, "find_modules_recursive" if n == "pkg" else "create_source_list"), detail)
-    base = diag(*runs["args"][1][:2], cwd, cliworld)
-    differing = [n for n, (_, r) in runs.items() if diag(r[0], r[1], cwd, cliworld) != base]
+    # Order independence of the diagnostics is only demanded of complete listings: the search path is built from
+    # the bases in argument order, so a module that is *not* listed (an ancestor package, say) and exists under two
+    # bases is resolved by whichever base was named first — the documented shadowing by unlisted files, cf.
+    # not_roundtrip_unlisted.  (`-p` is compared whenever the model says it expands to the same pairs.)
+    allpy = set(layout._abs(world, p) for p, k in case.entries if k == "f" and p.endswith((".py", ".pyi")))
+    complete = allpy <= set(p for p, _ in S)
+    ctx.dist("case_cli_listing", "complete" if complete else "partial")
+
+    def canon_twice(lines):
+        return ["<stops: source file found twice>"] if any("Source file found twice" in l for l in lines) else lines
+
+    base = canon_twice(diag(*runs["args"][1][:2], cwd, cliworld))
+    differing = [n for n, (_, r) in runs.items() if (complete or n == "pkg")
+                 and canon_twice(diag(r[0], r[1], cwd, cliworld)) != base]
     if differing:
         n = differing[0]
         extra = sorted(set(diag(*runs[n][1][:2], cwd, cliworld)) ^ set(base))[:4]
